@@ -87,3 +87,8 @@ def fill(claim, na):
       'Exhaustive comparison of (year, amount, use site, filing status) triples: every line definition is partially evaluated under each of the five statuses and the constants it uses are extracted with role and the inputs/lines they are combined with; 174 frozen use sites of 53 statutory amounts x 3 years x statuses (about 510 triples) must equal an independent table of published values; where the IRS template prints dollar amounts on the mapped box, the values used must be among them.',
       'Trusted: sa/amounts.py + sa/lineabs.py; the published values typed into sa/tools/make_statutory_table.py (Rev. Proc. 2020-45/2021-45/2022-38, form instructions, NC D-401) and frozen in sa/data/statutory_amounts.json. Amounts not in the table are not covered; tiered tables are compared as sets per status.',
       'partial evaluation per filing status + semantic constant extraction + comparison with an independent oracle table', 'DESIGN.md §3 C08')
+
+    c('C02',
+      'Translation validation between two static artifacts: the instruction printed for a line (accessibility text of the IRS template box it is mapped to; cited transcriptions for the two 1040 worksheets and the NC D-400 face, whose templates carry no text) parsed by a sentence grammar and armed only when the whole arithmetic sentence parses and all operands are implemented lines (about 445 armed lines over three years: add/combine 150, subtract 140, smaller-of 34, multiply 55, carry/copy 45, conditional subtract 12), against the linear normal form of every value-returning path of the line definition. Wrong operand, sign, rate, dropped summand or floor, wrong carried line are decided on every path.',
+      'Trusted: sa/instr.py grammar, sa/linform.py normal forms, sa/lineabs.py; worksheet wording in sa/data/worksheets/*.txt (from the published instructions, typed from memory), three frozen path exceptions with reasons in sa/data/c02_exceptions.json. Not decided: about 645 lines whose instruction is prose ("see instructions", per-payer listings, status amounts), NC schedules, numeric equality on concrete returns.',
+      'translation validation: instruction grammar vs linear normal form of abstractly interpreted definitions', 'DESIGN.md §3 C02')
